@@ -264,9 +264,29 @@ type MTable struct {
 
 type MDB struct {
 	Tables map[string]*MTable
+	// Gone["table.col"]: values that rows removed or overwritten by Apply had in that column (at most 6 per column, latest
+	// first): keys an index must no longer return rows for unless another row still carries them
+	Gone map[string][]Val
 }
 
-func NewMDB() *MDB { return &MDB{Tables: map[string]*MTable{}} }
+func NewMDB() *MDB { return &MDB{Tables: map[string]*MTable{}, Gone: map[string][]Val{}} }
+
+func (m *MDB) noteGone(t *MTable, old Row, now Row) {
+	if m.Gone == nil {
+		m.Gone = map[string][]Val{}
+	}
+	for i, c := range t.Def.Cols {
+		if old[i].Null || (now != nil && Compare3(old[i], now[i]) == 0 && !now[i].Null) {
+			continue
+		}
+		k := t.Def.Name + "." + c.Name
+		l := append([]Val{old[i]}, m.Gone[k]...)
+		if len(l) > 6 {
+			l = l[:6]
+		}
+		m.Gone[k] = l
+	}
+}
 
 func (m *MDB) Create(def *TableDef) { m.Tables[def.Name] = &MTable{Def: def} }
 
@@ -278,6 +298,9 @@ func (m *MDB) Clone() *MDB {
 			nt.Rows[i] = r.Clone()
 		}
 		n.Tables[k] = nt
+	}
+	for k, v := range m.Gone {
+		n.Gone[k] = append([]Val{}, v...)
 	}
 	return n
 }
@@ -342,6 +365,7 @@ func (m *MDB) Apply(s *Stmt, mode EvalMode) int {
 				for _, it := range s.Set {
 					nr[t.Def.ColIdx(it.Col)] = it.V
 				}
+				m.noteGone(t, r, nr)
 				t.Rows[i] = nr
 				n++
 			}
@@ -352,6 +376,7 @@ func (m *MDB) Apply(s *Stmt, mode EvalMode) int {
 		n := 0
 		for _, r := range t.Rows {
 			if s.Where.Eval(t.resolver(r), mode) {
+				m.noteGone(t, r, nil)
 				n++
 			} else {
 				keep = append(keep, r)
